@@ -65,6 +65,11 @@ let op_of_string (s : string) : op =
   | ["SN"] -> OSnap
   | _ -> failwith ("op: " ^ s)
 
+let rec compare_bytes (a : bytes) (b : bytes) : int =
+  match a, b with
+  | [], [] -> 0 | [], _ -> -1 | _, [] -> 1
+  | x :: a', y :: b' -> let c = compare (int_of_n x) (int_of_n y) in if c <> 0 then c else compare_bytes a' b'
+
 let ecode_name = function
   | EWrite -> "Write" | EFlush -> "Flush" | EFormat -> "Format" | ELogFile -> "LogFile"
   | ESymlink -> "Symlink" | EPoison -> "Poison" | EWriterSpec -> "WriterSpec"
@@ -83,6 +88,9 @@ let string_of_obs (o : obs) : string * string =
        (String.concat "," (List.map ecode_name errs)), ".")
 
 (* "<id> flw <t0> <off> ; op op ..." *)
+(* kind "flwl": the same history through Logger / LoggerHandle: flush() returns nothing (an error is reported, not
+   returned), existing_log_files sorts its result *)
+let via_logger = ref false
 let run_case (toks : string list) : string =
   let rec drop_ann = function ";" :: r -> ";" :: r | _ :: r -> drop_ann r | [] -> [] in
   match (match toks with t0 :: off :: r -> t0 :: off :: drop_ann r | l -> l) with
@@ -94,6 +102,11 @@ let run_case (toks : string list) : string =
     let l = List.map (fun o ->
         let (x', ob) = step !x o in
         x := x';
+        let ob = if not !via_logger then ob else
+            (match o, ob with
+             | OFlush, ObsRes (c, rot) when int_of_n c = 1 -> ObsRes (n_of_int 0, rot)
+             | OQuery _, ObsList (c, l) -> ObsList (c, List.sort compare_bytes l)
+             | _ -> ob) in
         match o with
         | OCrash -> string_of_obs ob
         | _ -> if alive (!x).s_w then string_of_obs ob else ("x", "x")) ops in
